@@ -323,7 +323,7 @@ class _Tr:
         if not stmts:
             return self.tup()
         s, rest = stmts[0], stmts[1:]
-        T = self.tup()
+        TUP = self.tup()
         if isinstance(s, ast.Expr) and isinstance(s.value, ast.Constant) and isinstance(s.value.value, str):
             return self.block(rest, env)
         # x.add(e) / x.append(e)
@@ -356,14 +356,14 @@ class _Tr:
                 x = self.is_none_test(s.test, True)
                 if x is not None and isinstance(x, ast.Name) and env.get(x.id) in ("oval", "onode"):
                     inner = "val" if env[x.id] == "oval" else "node"
-                    return (f"match {x.id}_ with\n  | None => {T}\n  | Some {x.id}_ =>\n  "
+                    return (f"match {x.id}_ with\n  | None => {TUP}\n  | Some {x.id}_ =>\n  "
                             + self.block(rest, dict(env, **{x.id: inner})) + "\n  end")
                 c, ty = self.expr(s.test, env)
                 if ty != "bool":
                     raise T.Unsupported(ast.unparse(s.test))
-                return f"if {c} then {T} else\n  " + self.block(rest, env)
+                return f"if {c} then {TUP} else\n  " + self.block(rest, env)
             after = self.block(rest, env)
-            return f"let '{T} :=\n  " + self.if_value(s, env) + f" in\n  {after}"
+            return f"let '{TUP} :=\n  " + self.if_value(s, env) + f" in\n  {after}"
         if isinstance(s, ast.For) and not s.orelse and isinstance(s.target, ast.Name):
             it, ity = self.expr(s.iter, env)
             if ity == "set":
@@ -376,14 +376,14 @@ class _Tr:
                 raise T.Unsupported(f"iteration over {ast.unparse(s.iter)} : {ity}")
             x = s.target.id
             body = self.block(list(s.body), dict(env, **{x: ety}))
-            return (f"let '{T} :=\n  fold_left (fun '{T} ({x}_ : {COQ_T[ety]}) =>\n  {body})\n  {it} {T} in\n  "
+            return (f"let '{TUP} :=\n  fold_left (fun '{TUP} ({x}_ : {COQ_T[ety]}) =>\n  {body})\n  {it} {TUP} in\n  "
                     + self.block(rest, env))
         raise T.Unsupported(f"statement {ast.unparse(s)[:120]}")
 
     def if_value(self, s, env):
         """value (a state tuple) of an if statement"""
-        T = self.tup()
-        els = self.block(list(s.orelse), env) if s.orelse else T
+        TUP = self.tup()
+        els = self.block(list(s.orelse), env) if s.orelse else TUP
         test = s.test
         # (x := e) is not None
         x = self.is_none_test(test, False)
@@ -457,16 +457,16 @@ def translate_find_loop(src_text):
         raise T.Unsupported(f"first statement of the loop: {ast.unparse(first)}")
     tr = _Tr(FIND_STATE, {"value": "val", "parent_graph": "gid"})
     body = tr.block(list(w.body[1:]), tr.env)
-    T = tr.tup()
+    TUP = tr.tup()
     return ("(* the body of `while value_stack:` after `value = value_stack.pop()` *)\n"
-            f"Definition gen_find_body (value_ : nat) (st : fstate5) : fstate5 :=\n  let '{T} := st in\n  {body}.\n\n"
+            f"Definition gen_find_body (value_ : nat) (st : fstate5) : fstate5 :=\n  let '{TUP} := st in\n  {body}.\n\n"
             "(* `while value_stack: value = value_stack.pop(); <body>` with explicit fuel *)\n"
             "Fixpoint gen_find_loop (fuel : nat) (st : fstate5) : option fstate5 :=\n"
             "  match fuel with\n  | 0 => None\n  | S fuel' =>\n"
-            f"      let '{T} := st in\n"
+            f"      let '{TUP} := st in\n"
             "      match value_stack_ with\n      | [] => Some st\n"
             "      | value_ :: value_stack_ =>\n"
-            f"          gen_find_loop fuel' (gen_find_body value_ {T})\n"
+            f"          gen_find_loop fuel' (gen_find_body value_ {TUP})\n"
             "      end\n  end.\n")
 
 
@@ -635,7 +635,7 @@ def generate(ck) -> bool:
     try:
         text = gen_text(open(EXTRACTOR_SRC).read(), open(IMPLICIT_SRC).read())
         ck.gen("C18Gen", text)
-    except (T.Unsupported, SyntaxError, OSError) as e:
+    except Exception as e:  # noqa: BLE001  (fail closed on anything the translator cannot handle)
         ck.gen_failed("C18Gen", e)
         ok = False
     try:
